@@ -105,6 +105,8 @@ def run(ctx, chk):
                 continue
             f = fields_of(ip, obj)
             tgt = cn.show(f.get("target", C(None)))
+            if tgt == f"tuple(each({AS}))":
+                tgt = f"each({AS})"          # host addresses are tuples: tuple(addr) is addr
             chk.ob("C11.enumeration", f"{cls}: target is the loop's address", tgt == f"each({AS})",
                    tgt, ev.loc, nontrivial=False)
             if cls in SCAN_COST:
@@ -533,7 +535,10 @@ def mask_semantics(ip, cn, s):
     """(length, iterable, index, formula of `entry is 1`, the non-zero value is 1?, description) of the
     mask returned by get_action_mask, for the two ways of writing it: zeros(n) with a guarded store of
     1 inside a loop over the indices, or np.array / np.asarray of a per-index comprehension."""
-    if len(s.returns) != 1:
+    rets = s.returns
+    if len(rets) > 1 and all(t == rets[0][1] for _, t in rets):
+        rets = rets[:1]              # an early `return mask` for an empty space: the same array
+    if len(rets) != 1:
         return None
     t = s.returns[0][1]
     # ---- comprehension form
